@@ -140,14 +140,14 @@ Proof. apply differs_refutes_imported. vm_compute. reflexivity. Qed.
 Theorem chain_safe_agrees : forall (evalx : vexpr -> state -> res (value * state)) fuel obj (ops : list opitem) st,
   ops_safe (items_of ops) = true ->
   chain Asp evalx fuel obj ops st =
-  py_ops evalx (apply_bin Asp fuel) (fun u v => apply_un Asp u st v) (truthy Asp st) obj (items_of ops) st.
+  py_ops evalx (apply_bin Asp fuel) (fun u v st0 => apply_un Asp u st0 v) (fun v st0 => truthy Asp st0 v) obj (items_of ops) st.
 Proof. intros evalx fuel obj ops st H. unfold chain. now apply ops_agree. Qed.
 
 (* and the classifier of the defect shapes is complete: what it does not flag is safe *)
 Theorem chain_unflagged_agrees : forall (evalx : vexpr -> state -> res (value * state)) fuel obj (ops : list opitem) st,
   chain_class (items_of ops) = None ->
   chain Asp evalx fuel obj ops st =
-  py_ops evalx (apply_bin Asp fuel) (fun u v => apply_un Asp u st v) (truthy Asp st) obj (items_of ops) st.
+  py_ops evalx (apply_bin Asp fuel) (fun u v st0 => apply_un Asp u st0 v) (fun v st0 => truthy Asp st0 v) obj (items_of ops) st.
 Proof. intros. unfold chain. now apply ops_agree_class. Qed.
 
 (* layer 3: list +.  A list whose capacity equals its length (every list except the result of a filtered
